@@ -260,6 +260,9 @@ RcvHandle ==
      CASE k = "eof"  -> shut' = TRUE /\ cont' = [cont EXCEPT !.rcv = FALSE] /\ UNCHANGED <<recvErr, pend>>
        [] k = "err"  -> recvErr' = recvErr + 1 /\ cont' = [cont EXCEPT !.rcv = FALSE] /\ UNCHANGED <<shut, pend>>
        [] k = "resp" /\ m \in pend -> pend' = pend \ {m} /\ cont' = [cont EXCEPT !.rcv = TRUE] /\ UNCHANGED <<shut, recvErr>>
+       \* one response that answers m and also carries a result for an id that is not pending: m is completed,
+       \* then the error is recorded and the receiver leaves
+       [] k = "respbad" /\ m \in pend -> pend' = pend \ {m} /\ recvErr' = recvErr + 1 /\ cont' = [cont EXCEPT !.rcv = FALSE] /\ UNCHANGED shut
        [] OTHER      -> recvErr' = recvErr + 1 /\ cont' = [cont EXCEPT !.rcv = FALSE] /\ UNCHANGED <<shut, pend>>
   /\ Goto("rcv", "r.runlock")
   /\ UNCHANGED <<qn, modCh, modClosed, exitTok, exitClosed, rwR, rwW, rwWait, wg, sendErr, doneTok, sent,
@@ -277,7 +280,7 @@ RcvExit ==
                  dropped, inbox, broken, halfClosed, ended, faults, cont, cur, awaitN, awaitRes, panicked>>
 
 (* ------------------------------ environment ------------------------------ *)
-Delivered == {inbox[i][2] : i \in {j \in DOMAIN inbox : inbox[j][1] = "resp"}}
+Delivered == {inbox[i][2] : i \in {j \in DOMAIN inbox : inbox[j][1] \in {"resp", "respbad"}}}
 Answerable == ({sent[i] : i \in DOMAIN sent} \cap pend) \ Delivered
 EnvVars == <<pc, qn, modCh, modClosed, exitTok, exitClosed, shut, rwR, rwW, rwWait, wg, pend, sendErr, recvErr, doneTok, sent,
              dropped, halfClosed, cont, cur, awaitN, awaitRes, panicked>>
@@ -286,6 +289,11 @@ EnvVars == <<pc, qn, modCh, modClosed, exitTok, exitClosed, shut, rwR, rwW, rwWa
 EnvResp(m) ==
   /\ ~broken /\ ~ended /\ m \in Answerable
   /\ inbox' = Append(inbox, <<"resp", m>>) /\ UNCHANGED <<broken, ended, faults>> /\ UNCHANGED EnvVars
+
+\* protocol violation by the server (counts as the fault): an answer to m batched with a result for an unknown id
+EnvRespBad(m) ==
+  /\ ~broken /\ ~ended /\ m \in Answerable /\ faults > 0
+  /\ inbox' = Append(inbox, <<"respbad", m>>) /\ faults' = faults - 1 /\ UNCHANGED <<broken, ended>> /\ UNCHANGED EnvVars
 
 \* fault: the stream fails on the receive side
 EnvRecvErr ==
@@ -304,7 +312,7 @@ EnvEOF ==
   /\ inbox' = Append(inbox, <<"eof", 0>>) /\ ended' = TRUE
   /\ faults' = (IF halfClosed THEN faults ELSE faults - 1) /\ UNCHANGED broken /\ UNCHANGED EnvVars
 
-Env == (\E m \in 1..NQ : EnvResp(m)) \/ EnvRecvErr \/ EnvBrokenRecv \/ EnvEOF
+Env == (\E m \in 1..NQ : EnvResp(m) \/ EnvRespBad(m)) \/ EnvRecvErr \/ EnvBrokenRecv \/ EnvEOF
 
 App == QBegin \/ QRLock \/ QCheck \/ QSelectSend \/ QSelectExit \/ QRUnlock \/ AwLock \/ AwLocked \/ AwCheck \/ AwUnlock
        \/ DcCheck \/ DcClose \/ DcWait \/ RsClear
